@@ -37,6 +37,7 @@ theorem done_mono (s : St) (a : Act) (s' : St) (h : step s a = some s') (f : Nat
     split at h
     · split at h <;> (cases h; exact hf)
     · cases h
+  | submitApp => simp only [step] at h; split at h <;> cases h; exact hf
   | discard j =>
     simp only [step] at h
     split at h
